@@ -2,6 +2,7 @@
 SPECIFICATION GenSpec
 CONSTANTS
   Modes = {"tcp", "udp"}
+  LogLevels = {"info", "debug"}
   MaxPkts = 3
   ValidateKnown = TRUE
   TcpDests <- BehTcpDests
